@@ -622,6 +622,14 @@ func main() {
 		"the source hash and secret hash (separate components of the stored target hash) are not consulted: the statement is about rule hashes",
 	}
 	if r.Replay != "" {
+		var hw struct {
+			Family string `json:"family"`
+		}
+		lib.LoadReplay(r.Replay, &hw)
+		if hw.Family == "prebuild" {
+			n, t, _ := historyTier(r) // (small: the whole tier is re-run)
+			r.Finish(lib.Coverage{Evaluations: t, DistinctNontrivial: n, Rule: "replay of the history tier", Exhaustive: true})
+		}
 		var w witness
 		lib.LoadReplay(r.Replay, &w)
 		a := byName[w.Attr]
